@@ -1,0 +1,9 @@
+//go:build !verif
+
+package integration_tests_utils
+
+import "github.com/NVIDIA/KAI-scheduler/pkg/scheduler/framework"
+
+func verifTraceRound(string, *framework.Session) func() { return func() {} }
+
+func verifTraceAction(string, bool) {}
